@@ -30,7 +30,7 @@ def group(gid, crate, file, module, functions_encoded, stubs=(), assumptions=())
 
 def H(gid, fn, props, bounds, desc="", tier="quick", **kw):
     g = GROUPS[gid]
-    rec = {"group": gid, "crate": g["crate"], "file": g["file"], "name": g["module"] + "::verif_kani::" + fn,
+    rec = {"group": gid, "crate": g["crate"], "file": g["file"], "name": (g["module"] + "::" if g["module"] else "") + "verif_kani::" + fn,
            "props": props.split(), "bounds": bounds, "desc": desc, "tier": tier}
     rec.update(kw)
     HARNESSES.append(rec)
@@ -83,6 +83,12 @@ H("G-BLOOM", "bloom_parse_total_len3", "C23 C15 C17", "every 3-byte input", "par
 H("G-BLOOM", "bloom_parse_total_len4", "C23 C15 C17", "every 4-byte input", "parser total; accepted bits length consistent")
 H("G-BLOOM", "bloom_parse_total_len5", "C23 C15 C17", "every 5-byte input", "parser total", tier="thorough")
 H("G-BLOOM", "bloom_parse_total_len6", "C23 C15 C17", "every 6-byte input", "parser total", tier="thorough")
+H("G-BLOOM", "bloom_bits_capacity_b0", "C23 C15 C17", "bits-per-entry (resp. entry count) fixed to 0, the other factor ANY u32; loop-free", "bits_capacity (f64 arithmetic) = ceil(e*b/8) in 64-bit integers (exact below 2^53), symmetric in its arguments")
+H("G-BLOOM", "bloom_bits_capacity_b1", "C23 C15 C17", "bits-per-entry (resp. entry count) fixed to 1, the other factor ANY u32; loop-free", "bits_capacity (f64 arithmetic) = ceil(e*b/8) in 64-bit integers (exact below 2^53), symmetric in its arguments")
+H("G-BLOOM", "bloom_bits_capacity_b4", "C23 C15 C17", "bits-per-entry (resp. entry count) fixed to 4, the other factor ANY u32; loop-free", "bits_capacity (f64 arithmetic) = ceil(e*b/8) in 64-bit integers (exact below 2^53), symmetric in its arguments")
+H("G-BLOOM", "bloom_bits_capacity_b10", "C23 C15 C17", "bits-per-entry (resp. entry count) fixed to 10, the other factor ANY u32; loop-free", "bits_capacity (f64 arithmetic) = ceil(e*b/8) in 64-bit integers (exact below 2^53), symmetric in its arguments")
+H("G-BLOOM", "bloom_bits_capacity_b65536", "C23 C15 C17", "bits-per-entry (resp. entry count) fixed to 65536, the other factor ANY u32; loop-free", "bits_capacity (f64 arithmetic) = ceil(e*b/8) in 64-bit integers (exact below 2^53), symmetric in its arguments")
+H("G-BLOOM", "bloom_bits_capacity_b40000000", "C23 C15 C17", "bits-per-entry (resp. entry count) fixed to 1073741824, the other factor ANY u32; loop-free", "bits_capacity (f64 arithmetic) = ceil(e*b/8) in 64-bit integers (exact below 2^53), symmetric in its arguments")
 H("G-BLOOM", "bloom_probe_budget_b1", "C17 C23", "1 bit byte, ANY u32 probe count / entries / bits-per-entry, any hash; unwind 10 = 8*len+2 is the step budget",
   "get_probes allocates and iterates at most 8*len times whatever probe count the wire claims", unwind_is_budget=True)
 H("G-BLOOM", "bloom_probe_budget_b2", "C17 C23", "2 bit bytes, any u32 probe count; unwind 18 = 8*len+2 is the step budget",
